@@ -94,6 +94,47 @@ class RetObj(list):
         return self is other
 
 
+class RetExc(Exception):
+    """An exception INSTANCE handed back as a value ("errors as values"): returned, never raised."""
+
+    def __init__(self, token):
+        super().__init__(token)
+        self.token = token
+
+
+class RetTuple(tuple):
+    def __new__(cls, token, truthy):
+        self = super().__new__(cls, (token, 0) if truthy else ())
+        self.token = token
+        return self
+
+
+class RetDict(dict):
+    def __init__(self, token, truthy):
+        super().__init__({"token": token} if truthy else {})
+        self.token = token
+
+
+class RetStr(str):
+    def __new__(cls, token, truthy):
+        self = super().__new__(cls, token if truthy else "")
+        self.token = token
+        return self
+
+
+RET_TYPES = (RetObj, RetExc, RetTuple, RetDict, RetStr)
+
+
+def make_ret(token, c):
+    """The Python value behind an abstract return token: by callback number, a truthy or falsy list, tuple, dict or
+    string, or an exception instance - each recognisable by identity."""
+    kind = c % 9
+    if kind == 2:
+        return RetExc(token)
+    cls = (RetObj, RetObj, None, RetTuple, RetTuple, RetDict, RetDict, RetStr, RetStr)[kind]
+    return cls(token, truthy=kind in (0, 3, 5, 7))
+
+
 # ------------------------------------------------------------------------------------------
 # Recorder
 # ------------------------------------------------------------------------------------------
@@ -117,6 +158,29 @@ class Recorder:
         # "ctor_pre": inside a constructor before its first callback (attribute reads are the library resolving
         # names), "registering": inside add_listener / copy, "live": attribute reads are guard evaluations
         self.mode = "live"
+        self.runner = None      # set by Runner: cross-instance sends need the other machines
+        self.chain = []         # slots on Python's call stack, outermost first (cross-instance sends)
+        self.slot_by_id = {}    # id(machine) -> slot, for callbacks that run while another slot is being called
+
+    @staticmethod
+    def _key(obj):
+        # the library hands callbacks a weakref.proxy of the machine in some contexts (initial activation): the instance
+        # dictionary is the same object either way
+        try:
+            return id(obj.__dict__)
+        except Exception:  # noqa: BLE001
+            return id(obj)
+
+    def slot_of(self, machine):
+        if machine is None:
+            return self.cur_slot
+        return self.slot_by_id.get(self._key(machine), self.cur_slot)
+
+    def register(self, machine, slot):
+        for k in [k for k, v in self.slot_by_id.items() if v == slot]:
+            del self.slot_by_id[k]
+        if machine is not None:
+            self.slot_by_id[self._key(machine)] = slot
 
     # -- values -------------------------------------------------------------------------
     def retval(self, slotkey, c, token):
@@ -124,20 +188,20 @@ class Recorder:
             return None
         key = (slotkey, c)
         if key not in self.retobjs:
-            self.retobjs[key] = RetObj(token, truthy=(c % 2 == 0))
+            self.retobjs[key] = make_ret(token, c)
         return self.retobjs[key]
 
     def classify(self, value):
         if value is None:
             return {"k": "none", "items": []}
-        if isinstance(value, RetObj):
+        if isinstance(value, RET_TYPES):
             return {"k": "one", "items": [value.token]}
         if type(value) is list:
             items = []
             for x in value:
                 if x is None:
                     items.append("none")
-                elif isinstance(x, RetObj):
+                elif isinstance(x, RET_TYPES):
                     items.append(x.token)
                 else:
                     items.append("?" + type(x).__name__)
@@ -162,7 +226,9 @@ class Recorder:
     def begin_property(self, c, owner):
         """A guard given as a property / attribute is being read (no injected arguments)."""
         self.ninv += 1
-        self.emit({"e": "B", "i": self.cur_slot, "c": c, "inj": False, "view": "", "st": "", "src": "", "tgt": "", "evn": "",
+        pslot = getattr(owner, "__dict__", {}).get("_vslot", 0) if owner is not None else 0
+        self.last_slot = (self.slot_by_id.get(self._key(owner)) if owner is not None else None) or self.cur_slot
+        self.emit({"e": "B", "i": self.last_slot, "c": c, "inj": False, "view": "", "st": "", "src": "", "tgt": "", "evn": "",
                    "nest": _depth.get(), "pyd": 0,
                    "pslot": getattr(owner, "__dict__", {}).get("_vslot", 0) if owner is not None else 0})
         return self.ninv
@@ -182,10 +248,11 @@ class Recorder:
             while fr is not None:
                 pyd += 1
                 fr = fr.f_back
+        self.last_slot = self.slot_of(machine)
         self.emit(
             {
                 "e": "B",
-                "i": self.cur_slot,
+                "i": self.last_slot,
                 "c": c,
                 "inj": True,
                 "view": self.view_of(machine),
@@ -200,16 +267,48 @@ class Recorder:
         )
         return self.ninv
 
-    def end(self, c, raised):
-        self.emit({"e": "E", "i": self.cur_slot, "c": c, "raised": raised})
+    def end(self, c, raised, slot=None):
+        self.emit({"e": "E", "i": self.cur_slot if slot is None else slot, "c": c, "raised": raised})
 
-    def ncall(self, c, ev):
-        self.emit({"e": "ncall", "i": self.cur_slot, "c": c, "ev": ev})
+    def ncall(self, c, ev, slot=None):
+        self.emit({"e": "ncall", "i": self.cur_slot if slot is None else slot, "c": c, "ev": ev})
 
-    def nret(self, c, value, cmp=True):
+    def nret(self, c, value, cmp=True, slot=None):
         self.emit(
-            {"e": "nret", "i": self.cur_slot, "c": c, "cmp": cmp, "res": self.classify(value)}
+            {"e": "nret", "i": self.cur_slot if slot is None else slot, "c": c, "cmp": cmp, "res": self.classify(value)}
         )
+
+    # -- a callback of one machine sends an event to another machine -------------------------
+    def xtarget(self, slot, snd, coro_caller):
+        """The machine a cross-instance send goes to, or None when the send is skipped: unknown / own slot, a busy
+        non-RTC machine (re-entering it is outside the model), or an async machine called from a plain function
+        while a loop runs (nobody could await what comes back)."""
+        r = self.runner
+        j = snd["to"]
+        if r is None or j == slot or j not in r.sm:
+            return None
+        if j in self.chain and not r.opts[j]["rtc"]:
+            return None
+        if r.async_hint.get(j) and not coro_caller:
+            try:
+                asyncio.get_running_loop()
+                return None
+            except RuntimeError:
+                pass
+        return r.sm[j]
+
+    def xenter(self, slot, c, j, ev):
+        self.emit({"e": "xcall", "i": slot, "c": c, "to": j, "ev": ev, "gv": dict(self.gv)})
+        self.chain.append(j)
+        saved = (self.cur_slot, _depth.set(0))
+        self.cur_slot = j
+        return saved
+
+    def xleave(self, slot, c, j, saved, outcome):
+        self.cur_slot = saved[0]
+        _depth.reset(saved[1])
+        self.chain.pop()
+        self.runner.ret_line(slot, outcome, kind="xret", extra={"c": c, "to": j}, cls_slot=j)
 
 
 # ------------------------------------------------------------------------------------------
@@ -226,7 +325,7 @@ def make_callback(rt, c, cb, slot_getter=None):
     def pre(machine, event, source, target, state, owner=None):
         n = rt.begin(c, machine, event, source, target, state, owner)
         rt.occ[c] = rt.occ.get(c, 0) + 1
-        return n
+        return n, rt.last_slot
 
     def plan_of():
         if rt.script_occ is None:
@@ -239,7 +338,7 @@ def make_callback(rt, c, cb, slot_getter=None):
             return list(p["sends"]), True
         return rt.script.get(c, []), False
 
-    def finish(n, machine):
+    def finish(n, machine, slot=None):
         p = plan_of()
         if p is not None:
             boom = p["raise"]
@@ -248,9 +347,9 @@ def make_callback(rt, c, cb, slot_getter=None):
                 cb["group"] == "validators" and cb["gname"] != "none"
                 and not rt.gv.get(cb["gname"], True))
         if boom:
-            rt.end(c, True)
+            rt.end(c, True, slot)
             raise globals()["boom"](c)
-        rt.end(c, False)
+        rt.end(c, False, slot)
         if is_guard:
             # truthy / falsy values of any type, not just True / False (chosen by invocation number: deterministic)
             v = rt.gv.get(cb["gname"], False)
@@ -260,26 +359,38 @@ def make_callback(rt, c, cb, slot_getter=None):
     if not coro:
 
         def body(machine, event, source, target, state, owner=None):
-            n = pre(machine, event, source, target, state, owner)
+            n, slot = pre(machine, event, source, target, state, owner)
             tok = _depth.set(_depth.get() + 1)
             try:
                 sends, planned = sends_of()
                 for ev in sends:
                     if rt.budget <= 0 and not planned:
                         break
+                    if isinstance(ev, dict):          # to another machine
+                        tgt = rt.xtarget(slot, ev, False)
+                        if tgt is None:
+                            continue
+                        rt.budget -= 1
+                        saved = rt.xenter(slot, c, ev["to"], ev["ev"])
+                        try:
+                            out = ("ret", tgt.send(ev["ev"]))
+                        except Exception as e:  # noqa: BLE001 - the callback catches what the other machine raises
+                            out = ("exc", e)
+                        rt.xleave(slot, c, ev["to"], saved, out)
+                        continue
                     rt.budget -= 1
-                    rt.ncall(c, ev)
+                    rt.ncall(c, ev, slot)
                     r = machine.send(ev)
                     if asyncio.iscoroutine(r):
                         # plain function on an async machine: the facade hands back a coroutine
                         # that nobody can await; the event is queued already
                         r.close()
-                        rt.nret(c, None, cmp=False)
+                        rt.nret(c, None, cmp=False, slot=slot)
                     else:
-                        rt.nret(c, r)
+                        rt.nret(c, r, slot=slot)
             finally:
                 _depth.reset(tok)
-            return finish(n, machine)
+            return finish(n, machine, slot)
 
         if cb.get("defer"):
             # a plain callable that RETURNS an awaitable (e.g. a coroutine function behind an async-unaware decorator):
@@ -302,7 +413,7 @@ def make_callback(rt, c, cb, slot_getter=None):
     else:
 
         async def abody(machine, event, source, target, state, owner=None):
-            n = pre(machine, event, source, target, state, owner)
+            n, slot = pre(machine, event, source, target, state, owner)
             tok = _depth.set(_depth.get() + 1)
             try:
                 for _ in range(yields):
@@ -311,15 +422,30 @@ def make_callback(rt, c, cb, slot_getter=None):
                 for ev in sends:
                     if rt.budget <= 0 and not planned:
                         break
+                    if isinstance(ev, dict):          # to another machine
+                        tgt = rt.xtarget(slot, ev, True)
+                        if tgt is None:
+                            continue
+                        rt.budget -= 1
+                        saved = rt.xenter(slot, c, ev["to"], ev["ev"])
+                        try:
+                            r = tgt.send(ev["ev"])
+                            if asyncio.iscoroutine(r) or asyncio.isfuture(r):
+                                r = await r
+                            out = ("ret", r)
+                        except Exception as e:  # noqa: BLE001
+                            out = ("exc", e)
+                        rt.xleave(slot, c, ev["to"], saved, out)
+                        continue
                     rt.budget -= 1
-                    rt.ncall(c, ev)
+                    rt.ncall(c, ev, slot)
                     r = machine.send(ev)
                     if asyncio.iscoroutine(r) or asyncio.isfuture(r):
                         r = await r
-                    rt.nret(c, r)
+                    rt.nret(c, r, slot=slot)
             finally:
                 _depth.reset(tok)
-            return finish(n, machine)
+            return finish(n, machine, slot)
 
         async def method(self, *, event=None, source=None, target=None, state=None, machine=None):
             return await abody(machine, event, source, target, state, self)
@@ -337,7 +463,7 @@ def make_callback(rt, c, cb, slot_getter=None):
                 return True          # the library resolving the name, not a guard evaluation
             n = rt.begin_property(c, self_)
             rt.occ[c] = rt.occ.get(c, 0) + 1
-            return finish(n, None)
+            return finish(n, None, rt.last_slot)
         getter.__name__ = name
         method = property(getter)
     return method, function
@@ -588,6 +714,15 @@ class Built:
                 methods["__len__"] = lambda self_: 0
             elif kind == "falsy_bool":
                 methods["__bool__"] = lambda self_: False
+        if kind == "equal":
+            # value-like objects (frozen dataclasses, named tuples, ORM rows): every provider object of the scenario
+            # compares and hashes equal to every other one; what an object IS stays a matter of identity
+            methods["__eq__"] = lambda self_, other: "_vslot" in getattr(other, "__dict__", {})
+            methods["__hash__"] = lambda self_: 7
+        elif kind == "unhashable":
+            # e.g. a plain @dataclass: defines __eq__, hence has no __hash__
+            methods["__eq__"] = lambda self_, other: self_ is other
+            methods["__hash__"] = None
         _class_counter[0] += 1
         pname = f"P_{prov}_{_class_counter[0]}"
         methods["__module__"] = "vmod"
@@ -611,6 +746,9 @@ class Runner:
     def __init__(self, scn, rt=None):
         self.scn = scn
         self.rt = rt or Recorder(scn)
+        self.rt.runner = self
+        self.opts = {}          # slot -> options of the machine in it
+        self.async_hint = {}    # slot -> the definition gives the machine coroutine callbacks
         lazy = {st["k"] for st in scn["steps"] if st["op"] == "class"}
         self.built = [None] * len(scn["classes"])
         for k, d in enumerate(scn["classes"], start=1):
@@ -678,8 +816,10 @@ class Runner:
         for j in range(1, self.ni + 1):
             sm = self.sm.get(j)
             if sm is None:
-                out.append({"cur": "", "state": "none", "allowed": [], "active": [], "events": [],
-                            "modelok": True})
+                # (a machine whose constructor is still running - its callbacks may already talk to other machines -
+                # cannot be read yet)
+                out.append({"cur": "", "state": "ctor" if j == getattr(self, "constructing", 0) else "none",
+                            "allowed": [], "active": [], "events": [], "modelok": True})
                 continue
             k = self.cls_of[j]
             raw = getattr(sm.model, sm.state_field, None)
@@ -715,9 +855,10 @@ class Runner:
             return {"kind": "InvalidDefinition", "ev": "", "st": "", "c": 0}
         return {"kind": "other:" + type(e).__name__, "ev": "", "st": str(e)[:80], "c": 0}
 
-    def ret_line(self, i, outcome, cmp=True):
-        k = self.cls_of.get(i, 1)
-        line = {"e": "ret", "i": i, "cmp": cmp, "proj": self.proj()}
+    def ret_line(self, i, outcome, cmp=True, kind="ret", extra=None, cls_slot=None):
+        k = self.cls_of.get(i if cls_slot is None else cls_slot, 1)
+        line = {"e": kind, "i": i, "cmp": cmp, "proj": self.proj()}
+        line.update(extra or {})
         if outcome[0] == "ret":
             line.update(k="ret", res=self.rt.classify(outcome[1]),
                         exc={"kind": "", "ev": "", "st": "", "c": 0})
@@ -740,6 +881,10 @@ class Runner:
         gv = self.set_gv(step)
         provs = step["provs"]
         self.rt.cur_slot = i
+        self.rt.chain = [i]
+        self.rt.register(None, i)           # forget the machine that lived in this slot
+        self.opts[i] = opt
+        self.async_hint[i] = any(cb["coro"] and cb["prov"] in provs for cb in self.scn["classes"][k - 1]["cbs"])
         self.rt.budget = opt.get("budget", 0)
         state_field = step.get("state_field", "state")
         stored = step.get("stored", "")
@@ -754,7 +899,7 @@ class Runner:
             stored = ""
         self.user_models[i] = model
         step["stored"] = stored
-        lkind = "bag" if step.get("model_kind") == "bag" else "attr"
+        lkind = "bag" if step.get("model_kind") == "bag" else self.scn.get("listener_kind", "attr")
         lst = {p: b.make_provider(p, slot=i, kind=lkind) for p in provs if p not in ("sm", "model")}
         self.rt.emit({"e": "new", "i": i, "cls": k, "opt": opt, "stored": stored,
                       "provs": provs, "gv": gv})
@@ -766,6 +911,7 @@ class Runner:
         self.cls_of[i] = k
         self.sm.pop(i, None)
         self.rt.mode = "ctor_pre"
+        self.constructing = i
         try:
             if step.get("mixin"):
                 from statemachine.mixins import MachineMixin
@@ -789,10 +935,13 @@ class Runner:
                            listeners=list(lst.values()) or None, **kw)
         except Exception as e:  # noqa: BLE001
             self.rt.mode = "live"
+            self.constructing = 0
             self.ret_line(i, ("exc", e))
             return
         self.rt.mode = "live"
+        self.constructing = 0
         self.sm[i] = sm
+        self.rt.register(sm, i)
         self.models[i] = sm.model
         self.listeners[i] = lst
         self.ret_line(i, ("ret", None), cmp=False)
@@ -860,6 +1009,7 @@ class Runner:
         if "ev" in step:
             step = dict(step, ev=self.resolve_name(sm, step["ev"]))
         self.rt.cur_slot = i
+        self.rt.chain = [i]
         line = {"e": "call", "i": i, "api": api, "ev": step.get("ev", ""),
                 "v": step.get("v", "") if not isinstance(step.get("v"), list) else "",
                 "vs": step["v"] if isinstance(step.get("v"), list) else [step.get("v", "")], "j": step.get("j", 0)}
@@ -891,7 +1041,7 @@ class Runner:
                 objs = []
                 for p in (step["v"] if isinstance(step["v"], list) else [step["v"]]):
                     obj = self.listeners[i].get(p) or self.built[k - 1].make_provider(
-                        p, slot=i, kind="bag" if self.scn.get("bag_providers") else "attr")
+                        p, slot=i, kind="bag" if self.scn.get("bag_providers") else self.scn.get("listener_kind", "attr"))
                     self.listeners[i][p] = obj
                     objs.append(obj)
                 self.rt.mode = "registering"
@@ -919,6 +1069,9 @@ class Runner:
                 except Exception:  # noqa: BLE001
                     pass
                 self.sm[j] = clone
+                self.rt.register(clone, j)
+                self.opts[j] = self.opts.get(i, {"rtc": True})
+                self.async_hint[j] = self.async_hint.get(i, False)
                 self.user_models[j] = None
                 self.clone_of = getattr(self, "clone_of", {})
                 self.clone_of[j] = i
@@ -942,6 +1095,7 @@ class Runner:
         if api not in ("send", "event", "events_item", "allowed_item", "bound", "activate"):
             return self.do_call(step)
         self.rt.cur_slot = i
+        self.rt.chain = [i]
         line = {"e": "call", "i": i, "api": api, "ev": step.get("ev", ""), "v": "", "j": 0,
                 "gv": self.set_gv(step)}
         self.rt.budget = step.get("budget", self.scn.get("budget", 0))
